@@ -620,6 +620,21 @@ def check_flag_fixpoint(ctx, rep, f):
         sets = [st for st in _loop_stmts(loop) if isinstance(st, ast.Assign) and len(st.targets) == 1 and u(st.targets[0]) == flag
                 and isinstance(st.value, ast.Constant) and st.value.value is True]
         set_nodes = {cfg.n_of(st) for st in sets}
+        # inside a round the flag only ever goes up: any other assignment (flag = <condition>, flag = False further down)
+        # can take back a change that an earlier element of the same round registered
+        for st in _loop_stmts(loop):
+            if st is first:
+                continue
+            tgts = st.targets if isinstance(st, ast.Assign) else ([st.target] if isinstance(st, (ast.AugAssign, ast.AnnAssign)) else [])
+            if any(isinstance(t, ast.Name) and t.id == flag for t in tgts):
+                v = st.value
+                up = isinstance(v, ast.Constant) and v.value is True
+                if isinstance(v, ast.BoolOp) and isinstance(v.op, ast.Or) and any(isinstance(x, ast.Name) and x.id == flag for x in v.values):
+                    up = True
+                if isinstance(st, ast.AugAssign) and isinstance(st.op, ast.BitOr):
+                    up = True
+                if not up:
+                    rep.violates(RULE + '.W5', f, st, 'the fixpoint flag {0} is ASSIGNED `{1}` inside the round instead of only being set to True: a later element for which `{1}` is false resets the flag although an earlier element of the same round changed the state, so the iteration stops before the fixpoint'.format(flag, u(v)))
         # where the flag is read: loop test or `if not flag: break`
         readers = set()
         if flag in names_in(loop.test):
